@@ -107,9 +107,9 @@ def run_audit():
     rc, out, err = sh(["lake", "env", "lean", "Audit.lean"], cwd=LEAN, timeout=1800)
     res = {}
     txt = out + err
-    for m in re.finditer(r"'([^']+)' depends on axioms: \[([^\]]*)\]", txt):
+    for m in re.finditer(r"^'(.+?)' depends on axioms: \[([^\]]*)\]", txt, re.M):
         res[m.group(1)] = [a.strip() for a in m.group(2).replace("\n", " ").split(",") if a.strip()]
-    for m in re.finditer(r"'([^']+)' does not depend on any axioms", txt):
+    for m in re.finditer(r"^'(.+?)' does not depend on any axioms", txt, re.M):
         res[m.group(1)] = []
     for n in names:
         if n not in res:
